@@ -1,13 +1,278 @@
-"""cboundary — feed the deterministic boundary catalogue (tools/boundary_cases.py) to the C
-harness (tools/cside.py) as additional corpus-like items."""
+"""cboundary — deterministic catalogues for the C harness (tools/cside.py).
+
+1. the language-independent boundary catalogue (tools/boundary_cases.py), fed as additional
+   corpus-like items;
+2. C-specific classes the random generator (tools/schema_gen.py) reaches rarely or never,
+   chosen where the C runtime / C renderer switch code path:
+   * rows: 2-D arrays through aliases (`type Row = T[cap]` / `T[cap]'`, used as `Row[k]` and
+     as a field) for EVERY (element width, capacity, extensible) with row wire bits in
+     {8,16,32,64}, or row wire bits == row storage bits (dense rows, and extensible rows whose
+     16 prefix bits make up exactly for the unused storage bits: cap*(storage-n) == 16), or
+     16 + cap*n in {32,64}; unsigned, signed, bool, byte elements;
+   * long: arrays of the standard widths 8/16/32/64 (uint, int, enum, byte, alias of them) with
+     capacities 65..300, at aligned and unaligned offsets;
+   * narrow: aliases of narrow / odd-width ints (int1..int7, int9.., uintN, bool, byte) as array
+     elements (negative elements; alias to_flag path);
+   * samename: definitions with the SAME local name in different scopes (messages and enums
+     nested in different parent messages, different layouts), used as field and array element.
+   Every class comes with in-range values incl. min/max/all-ones and overdriven storage.
+"""
+from __future__ import annotations
+
 import random
+from typing import Any, Dict, List, Tuple
 
 import boundary_cases
 import cside
 import schema_gen as sg
 
+T = sg.T
 
-def install(ck, big=True, junk=1):
+
+def _storage_bits(n: int) -> int:
+    return 8 * cside.storage_bytes(n)
+
+
+def row_specs() -> List[Tuple[str, int, int, bool, str]]:
+    """(element kind, n, cap, ext, why)"""
+    out = []
+    for n in range(1, 65):
+        sb = _storage_bits(n)
+        for cap in range(1, 65):
+            bits = cap * n
+            why = []
+            if bits in (8, 16, 32, 64):
+                why.append(("plain", False))
+            if 16 + bits in (32, 64):
+                why.append(("ext-std", True))
+            if 16 + bits == cap * sb:
+                why.append(("ext-fills-storage", True))
+            if n in (8, 16, 32, 64) and cap in (2, 3):
+                why.append(("dense", False))
+                if cap == 2:
+                    why.append(("dense-ext", True))
+            for w, ext in why:
+                out.append(("uint", n, cap, ext, w))
+                out.append(("int", n, cap, ext, w))
+                if n == 1:
+                    out.append(("bool", 1, cap, ext, w))
+                if n == 8:
+                    out.append(("byte", 8, cap, ext, w))
+    return out
+
+
+def _leaf(kind: str, n: int) -> T:
+    return T(kind) if kind in ("bool", "byte") else T(kind, n=n)
+
+
+def _flat_build(top: T, base: str) -> sg.Schema:
+    return boundary_cases.build(top, base)
+
+
+def rows_catalogue(seed: int) -> List[Tuple[sg.Schema, str]]:
+    specs = row_specs()
+    out = []
+    per = 8
+    for k in range(0, len(specs), per):
+        chunk = specs[k:k + per]
+        pad = (k // per + seed) % 2 * 3
+        fields: List[Tuple[int, str, T]] = [(1, "fp", T("uint", n=pad))] if pad else []
+        why = set()
+        for j, (kind, n, cap, ext, w) in enumerate(chunk):
+            why.add(w)
+            row = T("alias", name=f"Tr{k + j}", t=T("arr", cap=cap, ext=ext, t=_leaf(kind, n)))
+            reps = 2 + (k + j + seed) % 2
+            fields.append((2 + 2 * j, f"fr{j}", T("arr", cap=reps, ext=((k + j) % 5 == 0), t=row)))
+            if j % 4 == 0:
+                fields.append((3 + 2 * j, f"fs{j}", row))
+        fields.append((200, "ftail", T("uint", n=5)))
+        top = T("msg", name="Trw", fields=fields)
+        out.append((_flat_build(top, f"crow{k // per}"), "cbnd:rows:" + "+".join(sorted(why)) + f"#{k // per}"))
+    return out
+
+
+def long_catalogue(seed: int) -> List[Tuple[sg.Schema, str]]:
+    out = []
+    caps8 = [65, 100, 128, 129, 255, 256, 257, 300]
+    caps16 = [65, 70, 100, 129, 200, 257]
+    caps32 = [65, 70, 100, 129]
+    caps64 = [65, 66, 70, 100]
+    en = {w: T("enum", n=w, name=f"Tle{w}", members=[("K%dA" % w, 0), ("K%dB" % w, (1 << w) - 1), ("K%dC" % w, 1 << (w - 1)), ("K%dD" % w, 5)])
+          for w in (8, 16, 32, 64)}
+    kinds = {
+        "uint": lambda w: T("uint", n=w),
+        "int": lambda w: T("int", n=w),
+        "enum": lambda w: en[w],
+        "alias-uint": lambda w: T("alias", name=f"Tlu{w}", t=T("uint", n=w)),
+        "alias-int": lambda w: T("alias", name=f"Tli{w}", t=T("int", n=w)),
+    }
+    for ki, (kname, mk) in enumerate(kinds.items()):
+        for half, ws in enumerate(((8, 16), (32, 64))):
+            pad = ((ki + half + seed) % 2) * 5
+            fields: List[Tuple[int, str, T]] = [(1, "fp", T("uint", n=pad))] if pad else []
+            for j, w in enumerate(ws):
+                cl = {8: caps8, 16: caps16, 32: caps32, 64: caps64}[w]
+                cap = cl[(ki + j + seed) % len(cl)]
+                fields.append((2 + j, f"fa{j}", T("arr", cap=cap, ext=((j + half + ki) % 2 == 1), t=mk(w))))
+            if kname == "uint" and half == 0:
+                fields.append((20, "fby", T("arr", cap=caps8[(seed + 3) % len(caps8)], t=T("byte"))))
+            fields.append((200, "ftail", T("int", n=7)))
+            out.append((_flat_build(T("msg", name="Tlg", fields=fields), f"clong{ki}{half}"), f"cbnd:long:{kname}#{half}"))
+    return out
+
+
+def narrow_catalogue(seed: int) -> List[Tuple[sg.Schema, str]]:
+    out = []
+    widths = list(range(1, 8)) + [9, 12, 13, 15, 17, 24, 31, 33, 48, 63]
+    for g, (kind, ws) in enumerate((("int", widths[:9]), ("int", widths[9:]), ("uint", widths[:9]), ("uint", widths[9:]))):
+        pad = (g + seed) % 2 * 3
+        fields: List[Tuple[int, str, T]] = [(1, "fp", T("uint", n=pad))] if pad else []
+        for j, n in enumerate(ws):
+            al = T("alias", name=f"Tn{g}{kind[0]}{n}", t=T(kind, n=n))
+            fields.append((2 + 2 * j, f"fe{j}", T("arr", cap=3 + (j + seed) % 4, ext=(j % 3 == 0), t=al)))
+            if j % 3 == 1:
+                fields.append((3 + 2 * j, f"fo{j}", al))
+        if g == 0:
+            fields.append((100, "fbo", T("arr", cap=5, t=T("alias", name="Tnbo", t=T("bool")))))
+            fields.append((101, "fby", T("arr", cap=5, t=T("alias", name="Tnby", t=T("byte")))))
+        fields.append((200, "ftail", T("uint", n=3)))
+        out.append((_flat_build(T("msg", name="Tnw", fields=fields), f"cnarrow{g}"), f"cbnd:narrow:{kind}#{g}"))
+    return out
+
+
+def _nested_build(top: T, parents: List[T], base: str) -> sg.Schema:
+    """parents (with their .nested definitions) and top as top-level definitions of one file"""
+    f = sg.SFile(0, base, base)
+    g = sg.Gen(random.Random(0), sg.Params())
+    g.files = [f]
+    named: List[T] = []
+
+    def reg(d: T, parent) -> None:
+        d.file, d.parent = 0, parent
+        for c in d.nested:
+            reg(c, d)
+        named.append(d)
+    for p in parents + [top]:
+        reg(p, None)
+        f.defs.append(p)
+    g.named = named
+    s = sg.Schema([f], top)
+    s.texts = sg.render_files(g, s)
+    return s
+
+
+def samename_catalogue(seed: int) -> List[Tuple[sg.Schema, str]]:
+    """messages and enums with the same LOCAL name nested in different parents, with different
+    layouts; each used as a field and as an array element of its parent, parents used by the top"""
+    out = []
+    rng = random.Random(f"samename:{seed}")
+    layouts = [
+        [(13, 1), (1, 0)], [(3, 0)], [(33, 1), (7, 0), (2, 1)], [(8, 0), (16, 1)], [(5, 1)], [(64, 0), (1, 1)], [(24, 0)],
+    ]
+    for variant in range(4):
+        nparents = 2 + variant % 2
+        parents = []
+        order = list(range(len(layouts)))
+        rng.shuffle(order)
+        for p in range(nparents):
+            lay = layouts[order[p]]
+            cell = T("msg", name="Cell", ext=(variant == 2 and p == 0),
+                     fields=[(j + 1, f"v{j}", T("int" if sgn else "uint", n=n)) for j, (n, sgn) in enumerate(lay)])
+            w = [3, 9, 17, 33, 5, 12][(order[p] + variant) % 6]
+            kind = T("enum", n=w, name="Kind", members=[(f"KP{p}V{variant}A", 0), (f"KP{p}V{variant}B", (1 << w) - 1),
+                                                         (f"KP{p}V{variant}C", 1 + p)])
+            par = T("msg", name=f"Tp{variant}{chr(97 + p)}", ext=(variant == 3 and p == 1))
+            par.nested = [cell, kind]
+            par.fields = [(1, "fone", cell), (2, "fk", kind), (3, "fcells", T("arr", cap=2 + p, ext=(variant == 1), t=cell)),
+                          (4, "fks", T("arr", cap=2, t=kind)), (5, "fx", T("uint", n=1 + p))]
+            if p % 2:
+                par.fields.reverse()
+            parents.append(par)
+        top = T("msg", name=f"Tst{variant}", fields=[(p + 1, f"fp{p}", par) for p, par in enumerate(parents)] +
+                [(9, "farr", T("arr", cap=2, t=parents[-1])), (10, "ftail", T("uint", n=6))])
+        out.append((_nested_build(top, parents, f"csame{variant}"), f"cbnd:samename#{variant}"))
+    return out
+
+
+def be_exact(t: T) -> bool:
+    """schemas on which the BP_BIG_ENDIAN build run on this little-endian host with BIG-ENDIAN storage
+    behaves exactly as on a big-endian host: no native multi-byte access is executed, i.e. no
+    extensible prefix (native uint16_t) and no sign fix-up on a multi-byte object (signed widths are
+    8/16/32/64 -> early return, or <= 8 bits -> uint8_t access)"""
+    k = t.kind
+    if k in ("alias", "arr"):
+        return not (k == "arr" and t.ext) and be_exact(t.t)
+    if k == "msg":
+        return not t.ext and all(be_exact(ft) for _, _, ft in t.fields)
+    if k == "int":
+        return t.n <= 8 or t.n in (16, 32, 64)
+    return True
+
+
+def to_be_exact(t: T, memo=None) -> T:
+    """a copy of the tree inside the BE-exact class: extensible markers dropped, signed widths that
+    would need a multi-byte sign fix-up made unsigned (names kept; shared named nodes stay shared)"""
+    memo = {} if memo is None else memo
+    if id(t) in memo:
+        return memo[id(t)]
+    k = t.kind
+    if k == "alias":
+        c = T("alias", name=t.name, t=to_be_exact(t.t, memo))
+    elif k == "arr":
+        c = T("arr", cap=t.cap, ext=False, t=to_be_exact(t.t, memo))
+    elif k == "msg":
+        c = T("msg", name=t.name, ext=False, fields=[(n, nm, to_be_exact(ft, memo)) for n, nm, ft in t.fields])
+    elif k == "int" and not be_exact(t):
+        c = T("uint", n=t.n)
+    else:
+        c = t
+    memo[id(t)] = c
+    return c
+
+
+def be_exact_catalogue(seed: int, quick: bool = False) -> List[Tuple[sg.Schema, str]]:
+    """rows / long / narrow classes moved into the BE-exact class (see be_exact); quick: every other
+    rows schema (rotating with the seed)"""
+    out = []
+    cat = c_catalogue(seed, ("long", "narrow"))
+    rows = rows_catalogue(seed)
+    cat += [r for k, r in enumerate(rows) if not quick or (k + seed) % 2 == 0]
+    for s, origin in cat:
+        top = to_be_exact(s.top)
+        base = s.files[0].base + "x"
+        out.append((boundary_cases.build(top, base), origin + ":be-exact"))
+    return out
+
+
+def c_catalogue(seed: int, classes=("rows", "long", "narrow", "samename")) -> List[Tuple[sg.Schema, str]]:
+    out: List[Tuple[sg.Schema, str]] = []
+    if "rows" in classes:
+        out += rows_catalogue(seed)
+    if "long" in classes:
+        out += long_catalogue(seed)
+    if "narrow" in classes:
+        out += narrow_catalogue(seed)
+    if "samename" in classes:
+        out += samename_catalogue(seed)
+    return out
+
+
+def items_of(seed: int, cat: List[Tuple[sg.Schema, str]], n_values: int = 3, junk: int = 1,
+             host: str = "LE") -> List[Dict[str, Any]]:
+    items = []
+    for s, origin in cat:
+        rng = random.Random(f"cbnd:{seed}:{origin}")
+        vals = boundary_cases.special_values(s.top, rng)
+        pick = [vals[0], vals[2], vals[3], vals[1], vals[5], vals[6]][:n_values]      # random, min, ones, max, patterns
+        cases = [dict(v=v, obj=cside.py_store(s.top, v, host), kind="value") for v in pick]
+        for _ in range(junk):
+            v = sg.gen_value(s.top, rng, "random")
+            cases.append(dict(v=v, obj=cside.junk_obj(s.top, rng, v, host), kind="overdriven"))
+        items.append(dict(schema=s, cases=cases, origin=origin))
+    return items
+
+
+def install(ck, big=True, junk=1, classes=("rows", "long", "narrow", "samename")):
     orig = cside.load_corpus
 
     def load(prop):
@@ -19,5 +284,6 @@ def install(ck, big=True, junk=1):
                 v = sg.gen_value(s.top, rng, "random")
                 cases.append(dict(v=v, obj=cside.junk_obj(s.top, rng, v), kind="overdriven"))
             items.append(dict(schema=s, cases=cases, origin=origin))
+        items += items_of(ck.seed, c_catalogue(ck.seed, classes), n_values=3, junk=max(1, junk))
         return items
     cside.load_corpus = load
